@@ -6,16 +6,16 @@ Open Scope Z_scope.
 
 Section FindFacts.
   Variable V : Type.
-  Lemma find_In : forall (m : nodemap V) id n, find m id = Some n -> In (id, n) m.
+  Lemma find_In : forall (m : nodemap V) id n, lookup m id = Some n -> In (id, n) m.
   Proof.
-    induction m as [|[k a] t IH]; intros id n H; cbn [find] in H; [discriminate|].
+    induction m as [|[k a] t IH]; intros id n H; cbn [lookup] in H; [discriminate|].
     destruct (k =? id) eqn:E.
     - apply Z.eqb_eq in E. inversion H; subst. left. reflexivity.
     - right. apply IH. exact H.
   Qed.
   Lemma has_keys : forall (m : nodemap V) id, has m id = true <-> In id (keys m).
   Proof.
-    unfold has, keys. induction m as [|[k a] t IH]; intro id; cbn [find map In fst].
+    unfold has, keys. induction m as [|[k a] t IH]; intro id; cbn [lookup map In fst].
     - split; [discriminate|tauto].
     - destruct (k =? id) eqn:E.
       + apply Z.eqb_eq in E. split; auto.
@@ -23,7 +23,7 @@ Section FindFacts.
   Qed.
   Lemma nbrs_mentioned : forall (m : nodemap V) x layer n, In n (nbrs m x layer) -> mentioned m n.
   Proof.
-    unfold nbrs. intros m x layer n H. destruct (find m x) as [nd|] eqn:E; [|destruct H].
+    unfold nbrs. intros m x layer n H. destruct (lookup m x) as [nd|] eqn:E; [|destruct H].
     exists x, nd, (nth layer (snd nd) []). split; [apply find_In; exact E|]. split; [|exact H].
     destruct (nth_in_or_default layer (snd nd) []) as [Hi|Hd]; [exact Hi|]. rewrite Hd in H. destruct H.
   Qed.
@@ -223,13 +223,13 @@ Section Search.
   (** with no dangling link every returned id is live and carries its true distance *)
   Lemma search_present_raw : order_ok leb -> forall (s : state V) q k ef, links_closed s ->
     forall i d, In (i, d) (search_with_ef s q k ef) ->
-    exists n, find (nodes s) i = Some n /\ d = dist q (fst n).
+    exists n, lookup (nodes s) i = Some n /\ d = dist q (fst n).
   Proof.
     intros Hord s q k ef [Hc1 Hc2] i d Hi.
     destruct (search_sound_raw Hord s q k ef) as [_ [_ [Ha _]]].
     destruct (Ha i d Hi) as [H1 H2].
     assert (Hh : has (nodes s) i = true) by (destruct H2; auto).
     unfold has in Hh. unfold Hnsw.node_distance in H1.
-    destruct (find (nodes s) i) as [n|]; [|discriminate]. exists n. split; [reflexivity|exact H1].
+    destruct (lookup (nodes s) i) as [n|]; [|discriminate]. exists n. split; [reflexivity|exact H1].
   Qed.
 End Search.
